@@ -546,6 +546,157 @@ func (g *gctx) txTimeoutSteps(n int) {
 	}
 }
 
+// blockScenario emits one life of a block request on a ready node: request, delivery of the block
+// (whole, in pieces without barrier, wrong block first, or not at all), cancels at every point
+// (before the block message, after the header, mid-stream, after completion, wrong hash), second
+// requests while busy. allowStall: scenarios in which the download stalls with a cancel pending
+// (the script must end with `close` then). Returns false when the script has to end.
+func (g *gctx) blockScenario(allowStall bool) bool {
+	r := g.r
+	hdr := header80(uint32(1+r.Intn(1<<20)), 0x18021fdb, byte(r.Intn(200)))
+	other := header80(uint32(1+r.Intn(1<<20)), 0x18021fdb, byte(200+r.Intn(50)))
+	hx80 := hex.EncodeToString(hdr)
+	ntx := r.Intn(4)
+	txs := make([][]byte, ntx)
+	for i := range txs {
+		txs[i] = txPayload(g.nextTx(), r.Intn(60), 1+r.Intn(2))
+	}
+	payload := blockPayload(hdr, txs)
+	whole := func() {
+		if r.Chance(50) {
+			g.emit(msgOp("block", payload))
+		} else {
+			g.emit(extOp("block", payload))
+		}
+	}
+	g.emit("reqblock hdr=" + hx80)
+	if r.Chance(30) {
+		g.emit("reqblock hdr=" + hex.EncodeToString(other)) // busy
+	}
+	if r.Chance(25) {
+		g.emit("reqheaders") // busy
+	}
+	if r.Chance(30) {
+		g.emit("blockstate")
+	}
+	switch r.Pick(26, 14, 14, 10, 18, 18) {
+	case 0: // delivered whole, maybe after a block nobody asked for
+		if r.Chance(35) {
+			g.emit(msgOp("block", blockPayload(other, [][]byte{txPayload(g.nextTx(), 5, 1)})))
+			g.emit("blockstate")
+		}
+		whole()
+		g.emit("blockstate")
+		if r.Chance(40) {
+			g.emit("cancelblock hdr=" + hx80) // after completion
+		}
+	case 1: // cancelled before the block message, which still arrives
+		if r.Chance(30) {
+			g.emit("cancelblock hdr=" + hex.EncodeToString(other)) // wrong hash
+		}
+		g.emit("cancelblock hdr=" + hx80)
+		g.emit("blockstate")
+		if r.Chance(40) {
+			g.emit("reqblock hdr=" + hex.EncodeToString(other)) // still busy
+		}
+		whole()
+		g.emit("blockstate")
+	case 2: // never delivered: the request is outstanding (or cancelled) when the connection ends
+		if r.Chance(40) {
+			g.emit("cancelblock hdr=" + hx80)
+		}
+		return false
+	case 3: // cancelled before, never delivered, peer keeps talking
+		g.emit("cancelblock hdr=" + hx80)
+		g.emit(fmt.Sprintf("ping n=%d", 1+r.Intn(100000)))
+		g.emit("blockstate")
+		return false
+	case 4: // delivered in pieces (no barrier between them), complete in the end
+		f := frame("block", payload, nil)
+		cuts := g.cutPoints(len(f), len(payload), txs)
+		prev := 0
+		for _, c := range cuts {
+			g.emit("raw hex=" + hex.EncodeToString(f[prev:c]) + " nob=1")
+			if r.Chance(50) {
+				g.emit("blockstate")
+			}
+			prev = c
+		}
+		g.emit("raw hex=" + hex.EncodeToString(f[prev:]) + " nob=1")
+		g.emit("blockstate")
+	case 5: // the download stalls part-way; cancel or peer drop
+		f := frame("block", payload, nil)
+		cuts := g.cutPoints(len(f), len(payload), txs)
+		c := cuts[r.Intn(len(cuts))]
+		g.emit("raw hex=" + hex.EncodeToString(f[:c]) + " nob=1")
+		g.emit("blockstate")
+		if c < 24+80 {
+			// the header is not complete: the request is not streaming yet
+			if r.Chance(60) {
+				g.emit("cancelblock hdr=" + hx80)
+				g.emit("blockstate")
+			}
+			return false
+		}
+		if allowStall && r.Chance(60) {
+			g.emit("cancelblock hdr=" + hx80 + " w=150")
+			g.emit("blockstate")
+		}
+		return false
+	}
+	return true
+}
+
+// cutPoints: interesting places to cut a block frame: inside the header, after the header, after
+// the count, inside and between transactions.
+func (g *gctx) cutPoints(frameLen, payloadLen int, txs [][]byte) []int {
+	r := g.r
+	cand := []int{24 + 1 + r.Intn(79), 24 + 80, 24 + 81}
+	off := 24 + 81
+	for _, t := range txs {
+		cand = append(cand, off+1+r.Intn(len(t)-1))
+		off += len(t)
+		cand = append(cand, off)
+	}
+	var out []int
+	for _, c := range cand {
+		if c < frameLen && r.Chance(45) {
+			out = append(out, c)
+		}
+	}
+	if len(out) == 0 {
+		out = []int{24 + 80}
+	}
+	return out
+}
+
+func genC16(g *gctx) {
+	r := g.r
+	g.emit(fmt.Sprintf("init verifyonly=0 tx=%d hh=%d", b2i(r.Chance(60)), b2i(r.Chance(30))))
+	if r.Chance(6) {
+		// a node that is not ready cannot be asked for a block
+		g.version()
+		g.emit("reqblock hdr=" + hex.EncodeToString(header80(7, 0x18021fdb, 1)))
+		g.emit("blockstate")
+		g.emit("close")
+		return
+	}
+	g.handshakeAndVerify(r.Intn(2))
+	g.emit("blockstate")
+	for i := 1 + r.Intn(3); i > 0; i-- {
+		if !g.blockScenario(true) {
+			g.emit("close")
+			return
+		}
+		if r.Chance(30) {
+			g.wellFormed(true)
+		}
+	}
+	g.emit(fmt.Sprintf("ping n=%d", 5000000+r.Intn(1000000)))
+	g.emit("blockstate")
+	g.emit("close")
+}
+
 func (g *gctx) handshakeAndVerify(extraHeaders int) {
 	g.version()
 	g.verack()
@@ -577,6 +728,13 @@ func genC14(g *gctx) {
 		n = r.Intn(4)
 	}
 	for i := 0; i < n && !g.wedged; i++ {
+		if g.reqBlock == nil && r.Chance(6) {
+			if !g.blockScenario(false) {
+				g.emit("close")
+				return
+			}
+			continue
+		}
 		g.wellFormed(true)
 	}
 	g.emit(fmt.Sprintf("ping n=%d", 2000000+r.Intn(1000000)))
@@ -784,7 +942,7 @@ func b2i(b bool) int {
 }
 
 func gen(seed uint64, scripts int, tier string, profile string) {
-	salt := map[string]uint64{"c13": 13, "c14": 14, "c15": 15, "real": 16}[profile]
+	salt := map[string]uint64{"c13": 13, "c14": 14, "c15": 15, "real": 16, "c16": 17}[profile]
 	r := hx.NewRng(seed*1000 + salt)
 	for i := 0; i < scripts; i++ {
 		g := &gctx{r: r, tier: tier}
@@ -795,6 +953,8 @@ func gen(seed uint64, scripts int, tier string, profile string) {
 			genC15(g)
 		case "real":
 			genReal(g)
+		case "c16":
+			genC16(g)
 		default:
 			genC13(g)
 		}
